@@ -92,6 +92,11 @@ def _repr(o):
 def is_busy(s):
     if s == BUSY:
         return True
+    if isinstance(s, str) and ('[...]' in s or '(...)' in s):
+        # a str()/repr() RESULT computed by a nested call on the thread whose pre-empted call is inside
+        # the repr of the same list (engine N runs the intruder on the pre-empted call's thread; on a
+        # thread of its own it would have seen the full text): artefact of the simulation, unusable
+        return True
     if isinstance(s, tuple):
         return any(is_busy(x) for x in s)
     return False
